@@ -538,7 +538,7 @@ fn replay_model(args: &Args) {
 		}));
 		match res {
 			Err(p) => println!("panic {}", p),
-			Ok(Err(e)) => println!("err {} (reference: {})", e, if reference(&g, &q, &|c: &Chan| usable(&g, &q, c)) { "found" } else { "none" }),
+			Ok(Err(e)) => println!("err {} (reference: {}, ample: {})", e, if reference(&g, &q, &|c: &Chan| usable(&g, &q, c)) { "found" } else { "none" }, ample_path_exists(&g, &q, 1 + g.iter().map(|c| c.src.max(c.dst)).max().unwrap_or(0), if q.maxpaths > 1 && q.mpp { 2 } else { 1 })),
 			Ok(Ok(route)) => { let r = to_hops(&route, &w); println!("{} -> {:?}", route_str(&r), recheck(&g, &q, &r)); },
 		}
 	}
